@@ -1,6 +1,7 @@
 package props
 
 import (
+	"reflect"
 	"errors"
 	"fmt"
 	"time"
@@ -37,6 +38,63 @@ func c14Ptr(cl psatoken.IClaims) *uint16 {
 func lcValid(v uint16) bool { return v>>8 <= 0x60 && (v>>8)%0x10 == 0 }
 
 func init() {
+	// whatever a method of the state type hands back is the caller's: every exported method that takes no argument is
+	// called (found by reflection, so methods added later are included), every byte slice among its results is
+	// overwritten, and the names of all states are what they were
+	Scenarios["c14.results-are-the-callers"] = func() (choice.Scenario, func() any) {
+		return func(c *choice.Ctx) {
+			v := []uint16{0, 1, 2, 3, 4, 5, 6, 7, 8, 0xffff}[c.Choose("state", 10)]
+			byPtr := c.Choose("receiver", 2) == 1
+			s := psatoken.LifeCycleState(v)
+			rv := reflect.ValueOf(s)
+			if byPtr {
+				rv = reflect.ValueOf(&s)
+			}
+			c14stats.StateStr(fmt.Sprint("results", v, byPtr))
+			namesOK := func() (int, string, string) {
+				for st := 0; st < 9; st++ {
+					want := "invalid"
+					if st < 7 {
+						want = lcNames[st]
+					}
+					if got := psatoken.LifeCycleState(st).String(); got != want {
+						return st, got, want
+					}
+				}
+				return -1, "", ""
+			}
+			if st, got, want := namesOK(); st >= 0 {
+				// (the names are process-wide: a re-execution after the damage finds it already done)
+				c.Failf("C14:result-of-method-is-shared-state", "LifeCycleState(%d).String() = %q, want %q: a byte slice handed out by a method of the state type (overwritten by an earlier execution of this scenario) is the library's own name table", st, got, want)
+				return
+			}
+			for i := 0; i < rv.NumMethod(); i++ {
+				m := rv.Method(i)
+				name := rv.Type().Method(i).Name
+				if m.Type().NumIn() != 0 {
+					continue
+				}
+				var outs []reflect.Value
+				if p, pv := safely(func() { outs = m.Call(nil) }); p {
+					c.Failf("C14:method-panics:"+name, "LifeCycleState(%d).%s() panicked: %v", v, name, pv)
+					continue
+				}
+				c14stats.Trans.Add(1)
+				for _, o := range outs {
+					if o.Kind() == reflect.Slice && o.Type().Elem().Kind() == reflect.Uint8 {
+						b := o.Bytes()
+						for j := range b {
+							b[j] = 'X'
+						}
+					}
+				}
+				if st, got, want := namesOK(); st >= 0 {
+					c.Failf("C14:result-of-method-is-shared-state", "after overwriting what LifeCycleState(%d).%s() returned, LifeCycleState(%d).String() = %q, want %q", v, name, st, got, want)
+					return
+				}
+			}
+		}, nil
+	}
 	Scenarios["c14.value"] = func() (choice.Scenario, func() any) {
 		st := c14stats
 		return func(c *choice.Ctx) {
@@ -256,10 +314,11 @@ func init() {
 	}
 	Checks["C14"] = func(r *evid.Run) {
 		c14stats = NewStats()
+		exploreChoiceOpts(r, "c14.results-are-the-callers", -1, time.Time{}, 1)
 		exploreChoiceOpts(r, "c14.value", -1, time.Time{}, 1) // one goroutine: a per-value, sequential property (concurrent callers are C17's business)
 		c14stats.Publish(r)
 		r.Set("rule", "one execution per lifecycle value 0..65535 (complete); distinct = distinct value; non-trivial = every value other than the all-default 0")
-		r.Set("distinct_nontrivial", r.Get("states")-1)
+		r.Set("distinct_nontrivial", r.Get("states")-21)
 		r.Set("bounds", map[string]any{"values": 65536, "profiles": 2})
 		r.Sample(map[string]any{"value": "0x30ff", "expected_state": "secured", "observed": psatoken.LifeCycleToState(0x30ff).String()})
 		r.Sample(map[string]any{"value": "0x3100", "expected_state": "invalid", "observed": psatoken.LifeCycleToState(0x3100).String()})
